@@ -141,6 +141,63 @@ pub fn c20(an: &Analysis<'_>, t: &mut Tally, idx: u64) {
     }
 }
 
+/// The part of the statement that survives a subscriber which filters out the library's own spans
+/// (no line can be attributed then, each one is handed to every running scenario): a line logged
+/// by a callback while it runs still reaches the attempt that logged it - "no such log is lost".
+pub fn c20_unattributed(an: &Analysis<'_>, t: &mut Tally, idx: u64, late_ids: &std::collections::HashSet<String>) {
+    let out = an.out;
+    if out.end != End::Ended {
+        t.inconclusive.push(format!("case {idx}: run did not end ({:?})", out.end));
+        return;
+    }
+    let mut delivered: HashMap<String, Vec<usize>> = HashMap::new();
+    for r in &out.evs {
+        if let Ev::Sc(ScEv::Log(m)) = &r.ev {
+            if !m.contains("OUT:") {
+                if let Some(id) = log_id(m) {
+                    delivered.entry(id).or_default().push(r.idx);
+                }
+            }
+        }
+    }
+    let mut checked = 0u64;
+    for (ai, a) in an.attempts.iter().enumerate() {
+        let Some(g) = a.group else { continue };
+        if an.groups[g].sc_uid.is_none() {
+            continue;
+        }
+        for &ci in &an.groups[g].cbs {
+            let cb = &out.cbs[ci];
+            let missing: Vec<&String> = cb
+                .logs
+                .iter()
+                .filter(|id| !late_ids.contains(*id))
+                .filter(|id| {
+                    checked += 1;
+                    !delivered.get(*id).is_some_and(|places| places.iter().any(|&at| out.evs[at].s.map(|s| s.ptr) == Some(a.s_ptr) && out.evs[at].retries == a.retries))
+                })
+                .collect();
+            if let Some(first) = missing.first() {
+                t.violation(
+                    "C20",
+                    "log:not-delivered-to-its-own-attempt",
+                    format!(
+                        "log {first} emitted by {:?} '{}' of s{} attempt {:?} (#{ai}) was not delivered as a Log event of that attempt ({} line(s) of this callback); the library's spans are filtered out, every line goes to all running scenarios",
+                        cb.kind,
+                        cb.text,
+                        a.sc_uid,
+                        a.retries,
+                        missing.len()
+                    ),
+                    idx,
+                    json!({"case": an.case.describe(), "stream": out.evs.iter().map(|r| r.short()).collect::<Vec<_>>()}),
+                );
+            }
+        }
+    }
+    t.count("c20.lines_checked_for_delivery_without_attribution", checked);
+}
+
 /// Event indices (Started, result) of the unit a callback implements, inside attempt `ai`.
 fn unit_events(an: &Analysis<'_>, ai: usize, kind: CbKind, text: &str) -> (Option<usize>, Option<usize>) {
     let a = &an.attempts[ai];
